@@ -64,6 +64,9 @@ TAILS = ["alert(1)", "//x/y", "image/png;base64,AA", "image/svg+xml;x", "text/ht
          "x//data:image/png;", "a@b.c", "", "image/webp;base64", "image/jpeg;", " image/png;"]
 
 
+UNSAFE_BITS = ["é", "\x01|^", "«x»", "`{}`", "|", "^", "ü/ö?ä=ß", "\u2028", "😀", "\\", "[x]", "%zz", "%", "\x7f", "<b>", "a b" ]
+
+
 def rand_url(rng) -> str:
     s = rng.choice(SCHEMES)
     k = rng.random()
@@ -72,6 +75,9 @@ def rand_url(rng) -> str:
         f = LETTER_FORMS[0] if rng.random() < 0.75 else rng.choice(LETTER_FORMS)
         out += f(c)
     out += rng.choice(COLONS) + rng.choice(TAILS)
+    if rng.random() < 0.3:
+        # characters that must come out percent-encoded, whatever the scheme or media type in front of them
+        out += rng.choice(UNSAFE_BITS)
     if rng.random() < 0.2:
         out += rng.choice(PREFIXES)
     return out
@@ -226,8 +232,57 @@ def run(ctx: Ctx) -> None:
                 ctx.sample({"input": doc, "urls": found[:2]})
             if url is not None:
                 sstrs.append(url)
-        # ---- tie: validateLink on normalised strings, browserScheme twin
-        from markdown_it.common.normalize_url import normalizeLink, validateLink
+        # ---- deterministic sweep: scheme x tail x character that must be percent-encoded, as a <>-destination
+        mdc = mds[0]
+        nsweep = 0
+        for sch in SCHEMES:
+            for tail in TAILS:
+                for bit in UNSAFE_BITS:
+                    url = f"{sch}:{tail}{bit}"
+                    if "<" in url or ">" in url or "\\" in url:
+                        continue
+                    doc = f"[a](<{url}>) ![b](<{url}>)\n"
+                    try:
+                        toks = mdc.parse(doc)
+                    except Exception:
+                        continue
+                    nsweep += 1
+                    for kind, u in urls_of_tokens(toks):
+                        err = check_url(kind, u)
+                        if err:
+                            ctx.fail("dangerous-url", err, {"input": doc, "preset_index": 0})
+                            break
+                    sstrs.append(url)
+        ctx.evaluations += nsweep
+        ctx.cov["scheme_tail_unsafe_sweep"] = nsweep
+        # ---- tie: normalizeLink is parse -> (punycode of the host) -> format -> encode, with no other path
+        from markdown_it.common.normalize_url import normalizeLink, validateLink, RECODE_HOSTNAME_FOR
+        import mdurl as _mdurl
+
+        def norm_twin(u):
+            parsed = _mdurl.parse(u, slashes_denote_host=True)
+            if parsed.hostname and (not parsed.protocol or parsed.protocol in RECODE_HOSTNAME_FOR):
+                try:
+                    from markdown_it import _punycode as pc
+                    parsed = parsed._replace(hostname=pc.to_ascii(parsed.hostname))
+                except Exception:
+                    pass
+            return _mdurl.encode(_mdurl.format(parsed))
+        for u in list(dict.fromkeys(sstrs))[: (6000 if quick else 60000)]:
+            try:
+                a = normalizeLink(u)
+            except Exception:
+                continue
+            try:
+                b = norm_twin(u)
+            except Exception:
+                continue
+            ctx.corr_compared += 1
+            if any(ch not in SAFE for ch in a):
+                ctx.fail("dangerous-url", f"normalizeLink({u!r}) = {a!r} is not URL-safe ASCII", {"input": f"[a](<{u}>)\n", "preset_index": 0})
+            if a != b:
+                ctx.mismatch("normalizeLink differs from parse -> punycode(host) -> format -> encode", {"input": u, "impl": a, "twin": b})
+                break
         cand = list(dict.fromkeys(vstrs))[:3000]
         for u in sstrs[:3000]:
             try:
